@@ -19,7 +19,7 @@ use num::{One, Signed, Zero};
 use std::panic::{catch_unwind, AssertUnwindSafe};
 use std::time::Instant;
 
-pub const RULE: &str = "decider 1 (taint): the C14 scalar type logs every to_f64 call with its dependency set; with debug output off every narrowed value may depend on nothing but the gamma coordinate 2E-2 (never on another coordinate, never on user masses/shifts) and every value widened back from f64 with dependencies is the gamma variate. decider 2 (precision gain): a double-double scalar (~106 bits) is pushed through the sampler on well-conditioned points and the outputs are checked with exact rational arithmetic at 1e-26*kappa instead of the 1e-13*kappa reachable in f64: u vs det(l_matrix), inverse*L-I, q_transposed*(k+shift) - sqrt(v/2lambda) q, shift vs L^-1 u_vectors, and agreement of u, v, jacobian between two routings of one point; lambda is the documented exception (its low word is 0); the L matrix against the sector formula evaluated in double-double; ill-conditioned points by the precision gain over the f64 run; decider 4: decompose_for_tropical itself on double-double copies of the C15 matrix classes (incl. weakly joined blocks) against exact rational inverse/determinant at 1e-26*cond. decider 6: every Gaussian component of the double-double run against the Box-Muller formula evaluated in double-double with the type's own PI. decider 5 (edge choice at the user's precision): one edge-choice coordinate is a double-double number at relative distance 1e-20..1e-27 above or below an exact cumulative boundary formed from the table's own f64 constants; the L matrix must follow the sector formula along the exact walk. non-trivial = L>=2 (samples), n>=3 (matrices) or E>=3 (edge choice); distinct = distinct case encodings";
+pub const RULE: &str = "decider 1 (taint): the C14 scalar type logs every to_f64 call with its dependency set; with debug output off every narrowed value may depend on nothing but the gamma coordinate 2E-2 (never on another coordinate, never on user masses/shifts) and every value widened back from f64 with dependencies is the gamma variate. decider 2 (precision gain): a double-double scalar (~106 bits) is pushed through the sampler on well-conditioned points and the outputs are checked with exact rational arithmetic at 1e-26*kappa instead of the 1e-13*kappa reachable in f64: u vs det(l_matrix), inverse*L-I, q_transposed*(k+shift) - sqrt(v/2lambda) q, shift vs L^-1 u_vectors, and agreement of u, v, jacobian between two routings of one point; lambda is the documented exception (its low word is 0); the L matrix against the sector formula evaluated in double-double; ill-conditioned points by the precision gain over the f64 run; decider 4: decompose_for_tropical itself on double-double copies of the C15 matrix classes (incl. weakly joined blocks) against exact rational inverse/determinant at 1e-26*cond. decider 6: every Gaussian component of the double-double run against the Box-Muller formula evaluated in double-double with the type's own PI, also at points only a wide scalar can express (angle coordinates k/4 +- 2^-(56..105), radii with a low word). decider 5 (edge choice at the user's precision): one edge-choice coordinate is a double-double number at relative distance 1e-20..1e-27 above or below an exact cumulative boundary formed from the table's own f64 constants; the L matrix must follow the sector formula along the exact walk. non-trivial = L>=2 (samples), n>=3 (matrices) or E>=3 (edge choice); distinct = distinct case encodings";
 
 pub fn gen_case(t: &mut Tape, tier: Tier) -> Option<c09::Case> {
     let g = gen::gen_phys_graph(t, tier.pick(7, 8), 5, 0.3, 6)?;
@@ -316,6 +316,66 @@ fn dd_d<const D: usize>(s: &SampleGenerator<D>, p: &Phys, ctx: &mut Ctx) -> Resu
     Ok(Some(DdEval { u: r.u.q(), v: r.v.q(), jac: r.jacobian.q(), kappa, cv }))
 }
 
+/// decider 6b: Box-Muller coordinates that only a wide scalar can express: angles at k/4 +- 2^-(56..105) (the component
+/// next to an axis is then 1e-16..1e-31, far below f64 resolution but well inside the type's) and radii with a low word
+fn dd_bm_special<const D: usize>(s: &SampleGenerator<D>, p: &Phys, ctx: &mut Ctx) -> Result<(), Failure> {
+    let g = &p.g;
+    let (ne, nl) = (g.nedges(), g.num_loops());
+    let base = 2 * ne - 1;
+    let npairs = (nl * D + 1) / 2;
+    let mut x: Vec<DD> = p.x.iter().map(|&v| DD::f(v)).collect();
+    let h0 = p.x.iter().fold(23u64, |a, v| a.wrapping_mul(1_000_003).wrapping_add(v.to_bits()));
+    for jp in 0..npairs {
+        let h = h0.wrapping_mul(6364136223846793005).wrapping_add(jp as u64 * 1442695040888963407) >> 7;
+        let k4 = (h % 4) as f64 * 0.25;
+        let e = 56 + ((h >> 8) % 50) as i32;
+        let mut delta = 2f64.powi(-e);
+        if (h >> 20) & 1 == 1 && k4 > 0.0 {
+            delta = -delta;
+        }
+        x[base + 2 * jp + 1] = if k4 == 0.0 { DD::f(delta) } else { DD::new(k4, delta) };
+        let a = p.x[base + 2 * jp];
+        if a > 1e-300 && a < 0.5 {
+            x[base + 2 * jp] = DD::new(a, a * 2f64.powi(-60));
+        }
+    }
+    let ed: Vec<(Option<DD>, Vector<DD, D>)> = (0..ne).map(|e| (if g.massive[e] { Some(DD::f(p.kin.masses[e])) } else { None }, Vector::from_array(std::array::from_fn(|i| DD::f(p.kin.shifts[e][i]))))).collect();
+    let st = sut::settings(None, false, true);
+    let r = match catch_unwind(AssertUnwindSafe(|| s.generate_sample_from_x_space_point(&x, ed, &st, &NoLog))) {
+        Ok(Ok(r)) => r,
+        Ok(Err(_)) => {
+            ctx.label("dd-bm-special:sample-error");
+            return Ok(());
+        }
+        Err(_) => fail!("sample-panic", "sampling with the double-double scalar panicked: {}; case {p:?}", take_panic()),
+    };
+    let Some(md) = r.metadata.as_ref() else { fail!("no-metadata", "no metadata") };
+    if md.q_vectors.len() != nl {
+        fail!("q-shape", "double-double run: {} Gaussian vectors for {nl} loops", md.q_vectors.len());
+    }
+    for l in 0..nl {
+        for i in 0..D {
+            let n = l * D + i;
+            let jp = n / 2;
+            let (a, b) = (x[base + 2 * jp], x[base + 2 * jp + 1]);
+            if !(a.hi > 1e-300 && a.hi < 1.0) {
+                continue;
+            }
+            let r_ = (DD::f(-2.0) * a.ln()).sqrt();
+            let th = DD::f(2.0) * DD::PI * b;
+            let want = if n % 2 == 0 { r_ * th.cos() } else { r_ * th.sin() };
+            let err = qf(&(md.q_vectors[l][i].q() - want.q()).abs());
+            let cond = 1.0 + 1.0 / (a.hi.ln().abs()).max(1e-300);
+            let t_ = 1e-27 * (r_.hi.abs() * (1.0 + th.hi.abs()) + want.hi.abs()) * cond.min(1e12);
+            if !(err <= t_.max(1e-300)) {
+                fail!("dd-box-muller-precision", "double-double run with the angle coordinate of pair {jp} at {:e} + {:e}: Gaussian component {n} is {:e} + {:e} but the Box-Muller formula in double-double gives {:e} + {:e} (difference {err:e} > {t_:e}): a value below f64 resolution was lost; case {p:?}", b.hi, b.lo, md.q_vectors[l][i].hi, md.q_vectors[l][i].lo, want.hi, want.lo);
+            }
+        }
+    }
+    ctx.label("dd-bm-special:checked");
+    Ok(())
+}
+
 fn check_d<const D: usize>(c: &c09::Case, ctx: &mut Ctx) -> Result<(), Failure> {
     let p = &c.a;
     phys::classes_label(p, ctx);
@@ -341,6 +401,7 @@ fn check_d<const D: usize>(c: &c09::Case, ctx: &mut Ctx) -> Result<(), Failure> 
         ctx.label("dd:excluded-by-magnitude-guard");
         return Ok(());
     }
+    dd_bm_special::<D>(&s1, p, ctx)?;
     let Some(e1) = dd_d::<D>(&s1, p, ctx)? else { return Ok(()) };
     let Some(e2) = dd_d::<D>(&s2, &b, ctx)? else { return Ok(()) };
     let tu = DD_TOL * (e1.kappa + e2.kappa);
